@@ -4,6 +4,7 @@
   the monitor discipline); a `wait c` declares the condition `c` the caller re-tests after waking.
 -/
 import MoThreads.Props.C05
+import MoThreads.Proofs.MonitorRank
 namespace MoThreads.Monitor
 open MoThreads
 
@@ -111,5 +112,19 @@ def demoParked : Option State := do
 
 example : (demoParked.map fun s => (s.mutex, s.pc 0, step s 0 |>.isSome)) =
     some (none, .parked 0 (some (0, 1)) none, false) := by decide
+
+/-- L2: every Lock operation is a bounded number of its own steps (at most 7, plus waiting for the mutex or the
+wake-up), so with no new calls and no new timeouts every schedule takes at most `rank N s` steps — the sum of the
+remaining steps of the operations in progress; combined with `C06_no_lost_notification`, such a run ends in a
+state where no waiter whose condition holds is parked while the lock is free. -/
+theorem C06_runs_terminate {N : Nat} {s s' : State} {tr : List (Nat × Label)} (hb : Below N s) (r : sys.Run s tr s') :
+    tr.length ≤ rank N s := by
+  have := run_length_le_rank hb r; omega
+
+theorem C06_waiters_resume {N : Nat} {s s' : State} {tr : List (Nat × Label)} (h : sys.Reach s) (hb : Below N s)
+    (r : sys.Run s tr s') :
+    tr.length ≤ rank N s ∧
+      (sys.Quiescent s' → s'.mutex = none → ∀ t w c tl, s'.pc t = .parked w c tl → c.holds s'.σ = false) :=
+  ⟨C06_runs_terminate hb r, fun hq hm t w c tl hp => (C06_no_lost_notification (h.run sys r) hq hm t w c tl hp).1⟩
 
 end MoThreads.Monitor
